@@ -74,6 +74,7 @@ func main() {
 			continue
 		}
 		d, m, g := eng.BuildFrozen(*seed, c, &pf, o, 120+c%80)
+		d.Guard = false // the driver's argument builders are used from many goroutines below: no shared bookkeeping
 		res.Cases++
 		var msgs []string
 		for _, v := range d.Viol {
@@ -196,6 +197,30 @@ func main() {
 						plans[gi] = append(plans[gi], s)
 					}
 				}
+			}
+			// collision filters: three further fresh, shared, unregistered typed filters that every goroutine queries first,
+			// in the same order - right after the barrier all goroutines meet in the lazy initialisation of the same filter
+			for k := 0; k < 3; k++ {
+				a := (c + phase*3 + k) % 9
+				spec := &eng.FSpec{Kind: eng.FZero}
+				if a > 0 {
+					var cands []int
+					for ti, t := range typed.Tuples {
+						if len(t.Comps) == a && t.NewFilter != nil {
+							cands = append(cands, ti)
+						}
+					}
+					spec = &eng.FSpec{Kind: eng.FTyped, Tuple: cands[(c+phase+k)%len(cands)]}
+				}
+				pe := panelEntry{spec: spec, tf: d.BuildTyped(spec)}
+				expect := m.Select(spec, nil)
+				for gi := 0; gi < G; gi++ {
+					s := step{pi: len(panel), spec: spec, tf: pe.tf, expect: expect, mode: (gi + k) % 5}
+					front := append([]step{}, plans[gi][:k]...)
+					plans[gi] = append(append(front, s), plans[gi][k:]...)
+				}
+				panel = append(panel, pe)
+				res.Counters["collision-filters"]++
 			}
 			holdAll := phase == 1 && G == 64 // all 64 queries open at the same time
 			start := make(chan struct{})
